@@ -151,7 +151,8 @@ CHECKS = {
              "engine-wide or per field, are part of the configuration the theorems quantify over). PARTIAL: the "
              "argument-coercion option (gather / one by one) is decided per run (the models do not distinguish it); the asyncio "
              "runtime is outside the model. "
-             "Gated resolvers read info.path / info.field_name again after resuming: a ResolveInfo modified while its resolver is suspended fails that field, so the response differs between schedules.",
+             "Gated resolvers read info.path / info.field_name again after resuming: a ResolveInfo modified while its resolver is suspended fails that field, so the response differs between schedules. "
+             "A separate engine-level scenario covers the DIRECTIVE side: documents over a schema with SDL-applied directives (valid arguments, an uncoercible argument, a missing required argument) under the eight uniform configurations, twice each -- execute must return and answer the same under every configuration.",
         note="Trusted: as C01 + the gated scheduler driver; asyncio task wake-up order beyond FIFO start, gather internals, "
              "cancellation, timeouts, thread-pool resolvers are runtime behaviour the model cannot exhibit.",
         design="4 C08"),
